@@ -150,7 +150,7 @@ def select(ps, pred):
     return [p for p in ps if pred(p)]
 
 
-BIT_KINDS = {k for k in KINDS if k.startswith("b") and k[1:2].isdigit() or k in ("bi8", "be8", "bf32_whole")}
+BIT_KINDS = {k for k in KINDS if k.startswith("b") and k[1:2].isdigit() or k in ("bi8", "be8", "bf32_whole", "bc8", "bcc")}
 ARRAY_KINDS = {k for k in KINDS if k.startswith(("a_", "d_", "z_", "eof_", "a2d"))}
 PTR_KINDS = {"ptr", "ptrs", "a_ptr_2"}
 
